@@ -81,6 +81,12 @@ def step (cfg : Cfg) (st : St) (ev : String) : Option (St × Option String) :=
     let query ← queries[← q.toNat?]?
     pure ({ st with store := vclearPage st.store (b "/") query }, none)
   | ["A"] => pure ({ st with store := vclearAll st.store }, none)
+  | ["AH"] => pure ({ st with store := vclearAll st.store }, none)     -- `clear_response_caches(Some(this host))`
+  | ["AO"] => pure (st, none)                                            -- … of another host: nothing of ours
+  | ["KD", p, q] => do                                                   -- `clear_page("default" | "", uri)`
+    let (path, _) ← table[← p.toNat?]?
+    let query ← queries[← q.toNat?]?
+    pure ({ st with store := vclearPage st.store (b path) query }, none)
   | _ => none
 
 def runEvents (cfg : Cfg) : St → List String → List String → Option (List String)
